@@ -69,6 +69,7 @@ def run(ctx):
     ctx.rule("R01.3", "PAD: an alignment step after a NUL-terminated field maps pos%4 {0,1,2,3} to +{4,3,2,1}; after a blob to +{0,3,2,1}")
     ctx.rule("R01.4", "CURSOR: a loop over the type-tag string classifies only an element it NUL-tested in the same iteration, "
                       "and the characters skipped as non-arguments are exactly '[' and ']'")
+    ctx.rule("R01.8", "ITERATOR-TAGS: rtosc_itr_begin / rtosc_itr_next / rtosc_itr_end, evaluated on probe type strings with nested, adjacent and empty arrays, yield every tag except '[' and ']' in order - the tags rtosc_narguments counts and rtosc_type indexes")
     ctx.rule("R01.5", "VAARG: for every tag rtosc_v2args takes the default-promoted C type and stores into the union member whose "
                       "width equals the payload the writer emits from its member")
     ctx.rule("R01.6", "SHARED-DECODER/FORWARD: rtosc_argument and rtosc_itr_next decode through extract_arg and arg_size; "
@@ -142,6 +143,23 @@ def run(ctx):
         ctx.ob("R01.4", "skipset:" + inst.split("@")[0], lits == BRACKETS, site=site, detail={"characters": sorted(lits)},
                what="non-argument characters skipped here are %s, expected ['[', ']']" % sorted(lits))
     ctx.require_count("R01.4", 9)
+
+    # ---- R01.8: the iterator's walk over the type string, evaluated on probe type strings
+    from ..rules import itertags as IT
+    from .. import fdeval as _FD8
+    for ts in IT.PROBES:
+        try:
+            got = IT.walk(u, ts)
+        except _FD8.Unknown as e:
+            if "outside the type string" in str(e):
+                got = "reads outside the type string"
+            else:
+                raise AnalysisBroken("R01.8: iterator not evaluable on %r: %s" % (ts, e))
+        want = [c for c in ts if c not in BRACKETS]
+        ctx.ob("R01.8", "types \"%s\"" % ts, got == want, site=A.where(u.function("rtosc_itr_next")), detail={"type_string": ts, "iterator_yields": got, "value_tags": want},
+               key="R01.8:%s" % ts,
+               what="the iterator yields %s for the type string \"%s\"; its value tags are %s (rtosc_narguments / rtosc_type skip every '[' and ']')" % (got, ts, want))
+    ctx.require_count("R01.8", 12)
 
     # ---- R01.5
     v2, _, sw, fn = T.v2args_table(u)
